@@ -240,3 +240,8 @@ impl<R: BufRead> PacketBodyReader<R> {
         }
     }
 }
+
+// verification hook (add-only, inert unless built by `cargo kani`, which sets --cfg kani)
+#[cfg(kani)]
+#[path = "/verif/kani/packet_body_harness.rs"]
+mod verif_kani;
